@@ -8,7 +8,7 @@ import common
 
 THEOREMS = ["Matid.Props.SpanGraph." + t for t in (
     "metric_counts_matches", "metric_le_twice_neighbours", "periodic_metric_full", "periodic_span_always_valid",
-    "edges_preserve_species", "periodic_edges_preserve_species", "expansion_preserves_species", "chain_same_species", "component_is_connected", "component_is_whole", "component_iff", "component_same_species", "seed_in_its_group")]
+    "edges_preserve_species", "periodic_edges_preserve_species", "expansion_preserves_species", "chain_same_species", "component_is_connected", "component_is_whole", "component_iff", "components_partition", "component_same_species", "seed_in_its_group")]
 
 
 def _nodes(l):
